@@ -115,11 +115,6 @@ Proof.
   apply (slots_vec junk KBoth (i_dom I) ran ro F); intros _; assumption.
 Qed.
 
-(* functional leaves (range = field) *)
-Inductive dens (ro : ro_t) : opR -> space -> (list R -> R) -> Prop :=
-| DS_Leaf k f al dom g : k <> KIp -> pf_sc_clean f dom g ->
-    dens ro (Lf {| lf_kind := k; lf_fun := f; lf_alias := al; lf_quirk := QNone |} dom RField) dom g.
-
 (* [den ro o dom ran F]: o is a well-formed operator tree dom -> ran (the constructors
    repeat the checks of the __init__ methods) and F is the function it denotes.
    [ro] lists the elements owned by the operators of the tree with their contents. *)
@@ -155,24 +150,43 @@ Inductive den (ro : ro_t) : opR -> space -> space -> (list R -> list R) -> Prop 
 | D_LVec a dom ran F v dv : den ro a dom ran F -> In (v, ran, dv) ro ->
     den ro (Op cls_OperatorLeftVectorMult dom (RSp ran) [] [v] [] [a]) dom ran (fun d => rmul dv (F d))
 | D_RVec a dom ran F v dv : den ro a dom ran F -> In (v, dom, dv) ro ->
-    den ro (Op cls_OperatorRightVectorMult dom (RSp ran) [] [v] [] [a]) dom ran (fun d => F (rmul d dv)).
+    den ro (Op cls_OperatorRightVectorMult dom (RSp ran) [] [v] [] [a]) dom ran (fun d => F (rmul d dv))
+(* [dens ro o dom g]: o is a well-formed tree with a FIELD range (a functional) denoting g *)
+with dens (ro : ro_t) : opR -> space -> (list R -> R) -> Prop :=
+| DS_Leaf k f al dom g : k <> KIp -> pf_sc_clean f dom g ->
+    dens ro (Lf {| lf_kind := k; lf_fun := f; lf_alias := al; lf_quirk := QNone |} dom RField) dom g
+| DS_Sum l r dom gl gr : dens ro l dom gl -> dens ro r dom gr ->
+    dens ro (Op cls_OperatorSum dom RField [] [] [None; None] [l; r]) dom (fun d => (gl d + gr d)%R)
+| DS_PProd l r dom gl gr : dens ro l dom gl -> dens ro r dom gr ->
+    dens ro (Op cls_OperatorPointwiseProduct dom RField [] [] [] [l; r]) dom (fun d => (gl d * gr d)%R)
+| DS_LScal a dom g c : dens ro a dom g ->
+    dens ro (Op cls_OperatorLeftScalarMult dom RField [Some c] [] [] [a]) dom (fun d => (c * g d)%R)
+| DS_RScal a dom g c : dens ro a dom g ->
+    dens ro (Op cls_OperatorRightScalarMult dom RField [Some c] [] [None] [a]) dom (fun d => g (rscal c d))
+| DS_Comp l r dom mid g Fr : dens ro l mid g -> den ro r dom mid Fr ->
+    dens ro (Op cls_OperatorComp dom RField [] [] [None] [l; r]) dom (fun d => g (Fr d))
+| DS_RVec a dom g v dv : dens ro a dom g -> In (v, dom, dv) ro ->
+    dens ro (Op cls_OperatorRightVectorMult dom RField [] [v] [] [a]) dom (fun d => g (rmul d dv)).
 
-Lemma dens_ok ro o dom g : dens ro o dom g -> o_dom (sem junk o) = dom /\ sc_ok (sem junk o) ro g.
+Scheme den_mut := Induction for den Sort Prop
+  with dens_mut := Induction for dens Sort Prop.
+Combined Scheme den_dens_ind from den_mut, dens_mut.
+
+Lemma cls_sc_ok (c : cls) (I : @inst VR) ro g :
+  c_kind c = KBoth -> i_ran I = RField ->
+  raw_oop_sc (fun x => exec_body junk I (c_oop c) x None) (i_dom I) ro g ->
+  sc_ok (cls_sem junk c I) ro g.
 Proof.
-  intros D. destruct D as [k f al dom g Hk Hf].
-  cbn [sem]. unfold leaf_sem. cbn [lf_kind].
-  destruct k; try congruence; cbn [slots]; (split; [reflexivity|]); apply public_sc; apply leaf_sc; exact Hf.
+  intros Hk Hr Ho. unfold cls_sem. rewrite Hk, Hr. cbn [slots]. apply public_sc. exact Ho.
 Qed.
 
-Theorem den_ok ro o dom ran F : den ro o dom ran F -> o_dom (sem junk o) = dom /\ vec_ok (sem junk o) ran ro F.
+Lemma den_dens_ok ro :
+  (forall o dom ran F, den ro o dom ran F -> o_dom (sem junk o) = dom /\ vec_ok (sem junk o) ran ro F) /\
+  (forall o dom g, dens ro o dom g -> o_dom (sem junk o) = dom /\ sc_ok (sem junk o) ro g).
 Proof.
-  induction 1 as
-    [k f dom ran F Hf | f sp Hs | sp a | sp | dom ran | dom ran v dv Iv | sp v dv Iv
-    | l r dom ran Fl Fr Dl [Hdl Hl] Dr [Hdr Hr] | a dom ran F v dv Da [Hda Ha] Iv
-    | l r dom mid ran Fl Fr Dl [Hdl Hl] Dr [Hdr Hr] | l r dom ran Fl Fr Dl [Hdl Hl] Dr [Hdr Hr]
-    | a dom ran F c Da [Hda Ha] | a dom ran F c Da [Hda Ha] | f dom ran g v dv Df Iv
-    | a dom ran F v dv Da [Hda Ha] Iv | a dom ran F v dv Da [Hda Ha] Iv ].
+  apply den_dens_ind.
   - (* primitive leaf, any dispatch kind *)
+    intros k f dom ran F Hf.
     cbn [sem]. unfold leaf_sem. cbn [lf_kind]. split; [destruct k; reflexivity|].
     pose proof (slots_vec junk k dom ran ro F
                   (leaf_raw_oop {| lf_kind := k; lf_fun := f; lf_alias := false; lf_quirk := QNone |})
@@ -181,38 +195,89 @@ Proof.
     + apply leaf_oop; exact Hf.
     + apply leaf_ip; exact Hf.
   - (* leaf returning its argument (RealPart on a real space) *)
+    intros f sp Hs.
     cbn [sem]. unfold leaf_sem. cbn [lf_kind slots]. split; [reflexivity|].
     split; [reflexivity|]. split.
     + apply public_oop. apply leaf_alias_oop; exact Hs.
     + apply public_ip. apply bridge_ip. apply leaf_alias_oop; exact Hs.
-  - cbn [sem map]. split; [reflexivity|].
+  - intros sp a. cbn [sem map]. split; [reflexivity|].
     apply cls_vec_ok; [reflexivity | reflexivity | apply scaling_oop | apply scaling_ip].
-  - cbn [sem map]. split; [reflexivity|].
+  - intros sp. cbn [sem map]. split; [reflexivity|].
     apply cls_vec_ok; [reflexivity | reflexivity | apply zero_same_oop | apply zero_same_ip].
-  - cbn [sem map]. split; [reflexivity|].
+  - intros dom ran. cbn [sem map]. split; [reflexivity|].
     apply cls_vec_ok; [reflexivity | reflexivity | apply zero_diff_oop | apply zero_diff_ip].
-  - cbn [sem map]. split; [reflexivity|].
+  - intros dom ran v dv Iv. cbn [sem map]. split; [reflexivity|].
     apply cls_vec_ok; [reflexivity | reflexivity | apply constant_oop; exact Iv | apply constant_ip; exact Iv].
-  - cbn [sem map]. split; [reflexivity|].
+  - intros sp v dv Iv. cbn [sem map]. split; [reflexivity|].
     apply cls_vec_ok; [reflexivity | reflexivity | apply multiply_oop; exact Iv | apply multiply_ip; exact Iv].
-  - cbn [sem map]. split; [reflexivity|].
+  - intros l r dom ran Fl Fr Dl [Hdl Hl] Dr [Hdr Hr]. cbn [sem map]. split; [reflexivity|].
     apply cls_vec_ok; [reflexivity | reflexivity | apply sum_oop; assumption | apply sum_ip; assumption].
-  - cbn [sem map]. split; [reflexivity|].
+  - intros a dom ran F v dv Da [Hda Ha] Iv. cbn [sem map]. split; [reflexivity|].
     apply cls_vec_ok; [reflexivity | reflexivity | apply vecsum_oop; assumption | apply vecsum_ip; assumption].
-  - cbn [sem map]. split; [reflexivity|].
+  - intros l r dom mid ran Fl Fr Dl [Hdl Hl] Dr [Hdr Hr]. cbn [sem map]. split; [reflexivity|].
     apply cls_vec_ok; [reflexivity | reflexivity | eapply comp_oop; eassumption | eapply comp_ip; eassumption].
-  - cbn [sem map]. split; [reflexivity|].
+  - intros l r dom ran Fl Fr Dl [Hdl Hl] Dr [Hdr Hr]. cbn [sem map]. split; [reflexivity|].
     apply cls_vec_ok; [reflexivity | reflexivity | apply pprod_oop; assumption | apply pprod_ip; assumption].
-  - cbn [sem map]. split; [reflexivity|].
+  - intros a dom ran F c Da [Hda Ha]. cbn [sem map]. split; [reflexivity|].
     apply cls_vec_ok; [reflexivity | reflexivity | apply lscal_oop; assumption | apply lscal_ip; assumption].
-  - cbn [sem map]. split; [reflexivity|].
+  - intros a dom ran F c Da [Hda Ha]. cbn [sem map]. split; [reflexivity|].
     apply cls_vec_ok; [reflexivity | reflexivity | apply rscal_oop; assumption | apply rscal_ip; assumption].
-  - cbn [sem map]. split; [reflexivity|]. destruct (dens_ok _ _ _ _ Df) as [Hdf Hf].
+  - intros f dom ran g v dv Df [Hdf Hf] Iv. cbn [sem map]. split; [reflexivity|].
     apply cls_vec_ok; [reflexivity | reflexivity | apply flvec_oop; assumption | apply flvec_ip; assumption].
-  - cbn [sem map]. split; [reflexivity|].
+  - intros a dom ran F v dv Da [Hda Ha] Iv. cbn [sem map]. split; [reflexivity|].
     apply cls_vec_ok; [reflexivity | reflexivity | apply lvec_oop; assumption | apply lvec_ip; assumption].
-  - cbn [sem map]. split; [reflexivity|].
+  - intros a dom ran F v dv Da [Hda Ha] Iv. cbn [sem map]. split; [reflexivity|].
     apply cls_vec_ok; [reflexivity | reflexivity | apply rvec_oop; assumption | apply rvec_ip; assumption].
+  - (* functional leaf *)
+    intros k f al dom g Hk Hf.
+    cbn [sem]. unfold leaf_sem. cbn [lf_kind].
+    destruct k; try congruence; cbn [slots]; (split; [reflexivity|]); apply public_sc; apply leaf_sc; exact Hf.
+  - intros l r dom gl gr Dl [Hdl Hl] Dr [Hdr Hr]. cbn [sem map]. split; [reflexivity|].
+    apply cls_sc_ok; [reflexivity | reflexivity | apply fsum_sc; assumption].
+  - intros l r dom gl gr Dl [Hdl Hl] Dr [Hdr Hr]. cbn [sem map]. split; [reflexivity|].
+    apply cls_sc_ok; [reflexivity | reflexivity | apply fpprod_sc; assumption].
+  - intros a dom g c Da [Hda Ha]. cbn [sem map]. split; [reflexivity|].
+    apply cls_sc_ok; [reflexivity | reflexivity | apply flscal_sc; assumption].
+  - intros a dom g c Da [Hda Ha]. cbn [sem map]. split; [reflexivity|].
+    apply cls_sc_ok; [reflexivity | reflexivity | apply frscal_sc; assumption].
+  - intros l r dom mid g Fr Dl [Hdl Hl] Dr [Hdr Hr]. cbn [sem map]. split; [reflexivity|].
+    apply cls_sc_ok; [reflexivity | reflexivity | eapply fcomp_sc; eassumption].
+  - intros a dom g v dv Da [Hda Ha] Iv. cbn [sem map]. split; [reflexivity|].
+    apply cls_sc_ok; [reflexivity | reflexivity | apply frvec_sc; assumption].
+Qed.
+
+Theorem den_ok ro o dom ran F : den ro o dom ran F -> o_dom (sem junk o) = dom /\ vec_ok (sem junk o) ran ro F.
+Proof. apply (proj1 (den_dens_ok ro)). Qed.
+Theorem dens_ok ro o dom g : dens ro o dom g -> o_dom (sem junk o) = dom /\ sc_ok (sem junk o) ro g.
+Proof. apply (proj2 (den_dens_ok ro)). Qed.
+
+(* every operator's public call is Operator.__call__ around SOME pair of slots *)
+Lemma sem_call_shape (o : opR) :
+  exists ip oop, o_call (sem junk o) = public_call junk (o_dom (sem junk o)) (o_ran (sem junk o)) ip oop.
+Proof.
+  destruct o as [c dm rn pars vecs owns kids | l dm rn]; cbn [sem].
+  - unfold cls_sem. destruct (slots junk (c_kind c) _ _ _) as [ip oop]. exists ip, oop. reflexivity.
+  - unfold leaf_sem. destruct (slots junk (lf_kind l) _ _ _) as [ip oop]. exists ip, oop. reflexivity.
+Qed.
+
+(* functionals: op(x) returns the scalar g(x), nothing is modified; any out is rejected *)
+Theorem protocol_all_functionals ro o dom g :
+  dens ro o dom g ->
+  forall (s : storeR) x dx, wf_store s -> good ro s -> rd s x = Some (dom, cl dx) ->
+    (exists s1, call junk o (VElem x) None s = Ok (VSc (Some (g dx))) s1 /\
+       forall i, (i < length s)%nat -> rd s1 i = rd s i) /\
+    (forall y, in_rsp RField y s = true -> call junk o (VElem x) (Some y) s = Err EFunctionalOut s) /\
+    (forall y, in_rsp RField y s = false -> call junk o (VElem x) (Some y) s = Err ERange s).
+Proof.
+  intros D s x dx W G Ex.
+  destruct (dens_ok _ _ _ _ D) as (Hd & Hr & Hsc). unfold call.
+  rewrite <- Hd in Ex. splits.
+  - destruct (Hsc s x dx W G Ex) as (s1 & Hc & E1 & _). exists s1. split; [exact Hc|].
+    intros i Li. eapply ext_same; [exact E1 | exact Li | intros []].
+  - intros y Hy. destruct (sem_call_shape o) as (ip & oop & ->). rewrite Hr.
+    apply rejects_functional_out_any; [eapply in_space_elem; exact Ex | exact Hy].
+  - intros y Hy. destruct (sem_call_shape o) as (ip & oop & ->). rewrite Hr.
+    apply rejects_range_any; [eapply in_space_elem; exact Ex | exact Hy].
 Qed.
 
 (* ---- the property, spelled out for every tree ---- *)
